@@ -4,9 +4,598 @@
 import OLP.Shell.Spec
 import OLP.KV.Refine
 
+set_option linter.unusedSectionVars false
+
 namespace OLP.Shell
 open OLP OLP.KV
 
 variable {K V C E α T H D : Type} [DecidableEq K] [DecidableEq V] [DecidableEq C] [DecidableEq H]
+
+/-! ### association lists and append -/
+
+theorem alookup_append {β : Type} (k : H) (a b : List (H × β)) :
+    alookup k (a ++ b) = match alookup k a with
+      | some v => some v
+      | none => alookup k b := by
+  induction a with
+  | nil => rfl
+  | cons hd t ih =>
+    obtain ⟨k', v'⟩ := hd
+    by_cases hk : k' = k
+    · simp [alookup, hk]
+    · simp [alookup, hk, ih]
+
+theorem alookup_append_of_some {β : Type} (k : H) (a b : List (H × β)) (v : β)
+    (h : alookup k a = some v) : alookup k (a ++ b) = some v := by
+  rw [alookup_append, h]
+
+theorem alookup_append_isSome_right {β : Type} (k : H) (a b : List (H × β))
+    (h : (alookup k b).isSome = true) : (alookup k (a ++ b)).isSome = true := by
+  rw [alookup_append]
+  cases alookup k a with
+  | none => exact h
+  | some v => rfl
+
+/-! ### what store operations preserve -/
+
+/-- `s'` is `s` with another level of the gas counter -/
+def GasMoved (s s' : St K V) : Prop := ∃ g, s' = { s with gas := ⟨s.gas.limit, g⟩ }
+
+theorem GasMoved.refl (s : St K V) : GasMoved s s := ⟨s.gas.consumed, rfl⟩
+
+theorem GasMoved.trans {a b c : St K V} (h1 : GasMoved a b) (h2 : GasMoved b c) : GasMoved a c := by
+  obtain ⟨g1, rfl⟩ := h1
+  obtain ⟨g2, rfl⟩ := h2
+  exact ⟨g2, rfl⟩
+
+theorem cacheGet_moved (c : Cfg K V) (s : St K V) (k : K) : GasMoved s (s.cacheGet c k).1 := by
+  unfold St.cacheGet
+  split
+  · split
+    · exact GasMoved.refl s
+    · next g hg =>
+      have := consumeStrict_some _ _ _ hg
+      subst this
+      split
+      · exact ⟨_, rfl⟩
+      · exact ⟨_, rfl⟩
+  · exact GasMoved.refl s
+
+theorem cacheHas_moved (s : St K V) (k : K) : GasMoved s (s.cacheHas k).1 := by
+  unfold St.cacheHas
+  split
+  · split
+    · exact GasMoved.refl s
+    · next g hg =>
+      have := consumeStrict_some _ _ _ hg
+      subst this
+      exact ⟨_, rfl⟩
+  · exact GasMoved.refl s
+
+theorem get_moved (c : Cfg K V) (s : St K V) (k : K) : GasMoved s (s.get c k).1 := by
+  rcases get_fst c s k with h | h <;> rw [h]
+  · exact GasMoved.refl s
+  · exact cacheGet_moved c s k
+
+theorem has_moved (c : Cfg K V) (s : St K V) (k : K) : GasMoved s (s.has c k).1 := by
+  rcases has_fst c s k with h | h <;> rw [h]
+  · exact GasMoved.refl s
+  · exact cacheHas_moved s k
+
+theorem iter_foldl_moved (c : Cfg K V) (ks : List K) (acc : St K V × List (K × Option V)) :
+    GasMoved acc.1 (ks.foldl (iterStep c) acc).1 := by
+  induction ks generalizing acc with
+  | nil => exact GasMoved.refl _
+  | cons k t ih =>
+    rw [List.foldl_cons]
+    refine GasMoved.trans ?_ (ih _)
+    unfold iterStep
+    split
+    · exact GasMoved.refl _
+    · exact get_moved c acc.1 k
+
+theorem iter_moved (c : Cfg K V) (s : St K V) (lo hi : Option K) (asc : Bool) :
+    GasMoved s (s.iter c lo hi asc).1 := by
+  rw [iter_eq_foldl]
+  exact iter_foldl_moved c _ (s, [])
+
+/-- what every operation available to a `Prog` preserves: tree, meteredness, gas limit, whether a
+    session is open and, while one is open, the block cache -/
+structure Pres (s s' : St K V) : Prop where
+  tree : s'.tree = s.tree
+  metered : s'.metered = s.metered
+  limit : s'.gas.limit = s.gas.limit
+  sess : s'.sess.isSome = s.sess.isSome
+  cache : s.sess.isSome = true → s'.cache = s.cache
+
+theorem Pres.refl (s : St K V) : Pres s s := ⟨rfl, rfl, rfl, rfl, fun _ => rfl⟩
+
+theorem Pres.trans {a b c : St K V} (h1 : Pres a b) (h2 : Pres b c) : Pres a c :=
+  ⟨h2.tree.trans h1.tree, h2.metered.trans h1.metered, h2.limit.trans h1.limit,
+   h2.sess.trans h1.sess, fun h => (h2.cache (h1.sess.trans h)).trans (h1.cache h)⟩
+
+theorem GasMoved.pres {s s' : St K V} (h : GasMoved s s') : Pres s s' := by
+  obtain ⟨g, rfl⟩ := h
+  exact ⟨rfl, rfl, rfl, rfl, fun _ => rfl⟩
+
+theorem Pres.sess_none {s s' : St K V} (h : Pres s s') (hs : s.sess = none) : s'.sess = none := by
+  have := h.sess
+  rw [hs] at this
+  cases h' : s'.sess with
+  | none => rfl
+  | some o => rw [h'] at this; cases this
+
+theorem set_pres (c : Cfg K V) (s : St K V) (k : K) (v : V) : Pres s (s.set c k v).1 := by
+  unfold St.set
+  split
+  · next o ho => exact ⟨rfl, rfl, rfl, by simp [ho], fun _ => rfl⟩
+  · next ho =>
+    split
+    · split
+      · exact Pres.refl s
+      · next g hg =>
+        have := consumeStrict_some _ _ _ hg
+        subst this
+        exact ⟨rfl, rfl, rfl, rfl, fun h => by simp [ho] at h⟩
+    · exact ⟨rfl, rfl, rfl, rfl, fun h => by simp [ho] at h⟩
+
+theorem del_pres (c : Cfg K V) (s : St K V) (k : K) : Pres s (s.del c k) := by
+  unfold St.del
+  split
+  · next o ho => exact ⟨rfl, rfl, rfl, by simp [ho], fun _ => rfl⟩
+  · next ho =>
+    split
+    · split
+      · exact Pres.refl s
+      · next g hg =>
+        have := consumeStrict_some _ _ _ hg
+        subst this
+        exact ⟨rfl, rfl, rfl, rfl, fun h => by simp [ho] at h⟩
+    · exact ⟨rfl, rfl, rfl, rfl, fun h => by simp [ho] at h⟩
+
+/-- fact (1): no program changes tree, meteredness, limit or (with a session open) the cache -/
+theorem run_pres (cfg : Cfg K V) (p : Prog K V C E α) :
+    ∀ (s : St K V) (m : Vol C V) (e : E), Pres s (p.run cfg s m e).2.1 := by
+  induction p with
+  | ret a => intro s m e; exact Pres.refl s
+  | fail => intro s m e; exact Pres.refl s
+  | get k κ ih =>
+    intro s m e; simp only [Prog.run]
+    exact (get_moved cfg s k).pres.trans (ih _ _ _ _)
+  | has k κ ih =>
+    intro s m e; simp only [Prog.run]
+    exact (has_moved cfg s k).pres.trans (ih _ _ _ _)
+  | set k v κ ih =>
+    intro s m e; simp only [Prog.run]
+    exact (set_pres cfg s k v).trans (ih _ _ _ _)
+  | del k κ ih =>
+    intro s m e; simp only [Prog.run]
+    exact (del_pres cfg s k).trans (ih _ _ _)
+  | iter lo hi asc κ ih =>
+    intro s m e; simp only [Prog.run]
+    exact (iter_moved cfg s lo hi asc).pres.trans (ih _ _ _ _)
+  | getv ver k κ ih => intro s m e; simp only [Prog.run]; exact ih _ _ _ _
+  | gas κ ih => intro s m e; simp only [Prog.run]; exact ih _ _ _ _
+  | burn a κ ih =>
+    intro s m e; simp only [Prog.run]
+    exact Pres.trans (GasMoved.pres ⟨_, rfl⟩) (ih _ _ _)
+  | vget c κ ih => intro s m e; simp only [Prog.run]; exact ih _ _ _ _
+  | vset c v κ ih => intro s m e; simp only [Prog.run]; exact ih _ _ _
+  | env κ ih => intro s m e; simp only [Prog.run]; exact ih _ _ _ _
+
+/-- fact (2): a program without `vset` returns the volatile memory it was given -/
+theorem run_noVset (cfg : Cfg K V) (p : Prog K V C E α) :
+    ∀ (s : St K V) (m : Vol C V) (e : E), p.NoVset → (p.run cfg s m e).2.2 = m := by
+  induction p with
+  | ret a => intro s m e _; rfl
+  | fail => intro s m e _; rfl
+  | get k κ ih => intro s m e h; simp only [Prog.NoVset] at h; simp only [Prog.run]; exact ih _ _ _ _ (h _)
+  | has k κ ih => intro s m e h; simp only [Prog.NoVset] at h; simp only [Prog.run]; exact ih _ _ _ _ (h _)
+  | set k v κ ih => intro s m e h; simp only [Prog.NoVset] at h; simp only [Prog.run]; exact ih _ _ _ _ (h _)
+  | del k κ ih => intro s m e h; simp only [Prog.NoVset] at h; simp only [Prog.run]; exact ih _ _ _ h
+  | iter lo hi asc κ ih =>
+    intro s m e h; simp only [Prog.NoVset] at h; simp only [Prog.run]; exact ih _ _ _ _ (h _)
+  | getv ver k κ ih => intro s m e h; simp only [Prog.NoVset] at h; simp only [Prog.run]; exact ih _ _ _ _ (h _)
+  | gas κ ih => intro s m e h; simp only [Prog.NoVset] at h; simp only [Prog.run]; exact ih _ _ _ _ (h _)
+  | burn a κ ih => intro s m e h; simp only [Prog.NoVset] at h; simp only [Prog.run]; exact ih _ _ _ h
+  | vget c κ ih => intro s m e h; simp only [Prog.NoVset] at h; simp only [Prog.run]; exact ih _ _ _ _ (h _)
+  | vset c v κ ih => intro s m e h; simp only [Prog.NoVset] at h
+  | env κ ih => intro s m e h; simp only [Prog.NoVset] at h; simp only [Prog.run]; exact ih _ _ _ _ (h _)
+
+/-! ### gas shifts -/
+
+theorem ShiftSt.rfl0 (s : St K V) : ShiftSt 0 s s := by
+  unfold ShiftSt; rw [Int.add_zero]
+
+theorem ShiftOv.rfl0 (o : Ov K V) : ShiftOv 0 o o := by
+  unfold ShiftOv; rw [Int.add_zero]
+
+theorem ShiftOv.trans {d d' : Int} {a b c : Ov K V} (h1 : ShiftOv d a b) (h2 : ShiftOv d' b c) :
+    ShiftOv (d + d') a c := by
+  unfold ShiftOv at *
+  subst h1; subst h2
+  simp only [Int.add_assoc]
+
+theorem ShiftOv.sess {d : Int} {a b : Ov K V} (h : ShiftOv d a b) : b.sess = a.sess := by
+  unfold ShiftOv at h; subst h; rfl
+
+theorem ShiftOv.cache {d : Int} {a b : Ov K V} (h : ShiftOv d a b) : b.cache = a.cache := by
+  unfold ShiftOv at h; subst h; rfl
+
+theorem ShiftOv.toSt {d : Int} {a b : Ov K V} (h : ShiftOv d a b) (t : Tree K V) :
+    ShiftSt d (a.toSt t) (b.toSt t) := by
+  unfold ShiftOv at h; subst h; rfl
+
+theorem ShiftSt.ovOf {d : Int} {s s' : St K V} (h : ShiftSt d s s') : ShiftOv d (ovOf s) (ovOf s') := by
+  unfold ShiftSt at h; subst h; rfl
+
+theorem ShiftSt.tree {d : Int} {s s' : St K V} (h : ShiftSt d s s') : s'.tree = s.tree := by
+  unfold ShiftSt at h; subst h; rfl
+
+theorem ShiftSt.consumed {d : Int} {s s' : St K V} (h : ShiftSt d s s') :
+    s'.gas.consumed = s.gas.consumed + d := by
+  unfold ShiftSt at h; subst h; rfl
+
+/-- fact (3) for `BeginTxSession` -/
+theorem ShiftSt.begin {d : Int} {s s' : St K V} (h : ShiftSt d s s') : ShiftSt d s.begin s'.begin := by
+  unfold ShiftSt at h; subst h; rfl
+
+/-- a state differing from an overlay only in the gas level is a shift of it -/
+theorem shiftOv_of (o o' : Ov K V) (h1 : o'.sess = o.sess) (h2 : o'.cache = o.cache)
+    (h3 : o'.metered = o.metered) (h4 : o'.gas.limit = o.gas.limit) :
+    ShiftOv (o'.gas.consumed - o.gas.consumed) o o' := by
+  obtain ⟨a, b, c, ⟨l, g⟩⟩ := o
+  obtain ⟨a', b', c', ⟨l', g'⟩⟩ := o'
+  simp only at h1 h2 h3 h4
+  subst h1; subst h2; subst h3; subst h4
+  unfold ShiftOv
+  simp only
+  congr 2
+  omega
+
+/-! ### the end of a transaction: CommitTxSession or DiscardTxSession -/
+
+/-- the state the shell leaves behind after the handler and fee programs -/
+def finSt (ok : Bool) (s2 : St K V) : St K V :=
+  if ok then (match s2.csess with | some s => s | none => s2) else s2.dsess
+
+theorem finSt_tree (ok : Bool) (s : St K V) : (finSt ok s).tree = s.tree := by
+  obtain ⟨se, ca, me, ga, tr⟩ := s
+  cases se <;> cases ok <;> rfl
+
+theorem finSt_gas (ok : Bool) (s : St K V) : (finSt ok s).gas = s.gas := by
+  obtain ⟨se, ca, me, ga, tr⟩ := s
+  cases se <;> cases ok <;> rfl
+
+theorem finSt_metered (ok : Bool) (s : St K V) : (finSt ok s).metered = s.metered := by
+  obtain ⟨se, ca, me, ga, tr⟩ := s
+  cases se <;> cases ok <;> rfl
+
+theorem finSt_sess (ok : Bool) (s : St K V) : (finSt ok s).sess = none := by
+  obtain ⟨se, ca, me, ga, tr⟩ := s
+  cases se <;> cases ok <;> rfl
+
+theorem finSt_false_cache (s : St K V) : (finSt false s).cache = s.cache := rfl
+
+/-- fact (3) for `CommitTxSession` / `DiscardTxSession` -/
+theorem ShiftSt.finSt {d : Int} {s s' : St K V} (ok : Bool) (h : ShiftSt d s s') :
+    ShiftSt d (finSt ok s) (finSt ok s') := by
+  unfold ShiftSt at h; subst h
+  obtain ⟨se, ca, me, ga, tr⟩ := s
+  cases se <;> cases ok <;> rfl
+
+/-! ### the body of `txDeliverer` -/
+
+variable (cfg : Cfg K V) (hs : Handlers K V C E T H D) (e : E)
+
+/-- ProcessDeliver, then ProcessFee (always called), from a given state and volatile memory -/
+def txRun (tx : T) (s0 : St K V) (m : Vol C V) : (Option D × Option Int) × St K V × Vol C V :=
+  let r1 := (hs.deliver tx).run cfg s0 m e
+  let r2 := (hs.fee tx s0.gas.consumed).run cfg r1.2.1 r1.2.2 e
+  ((r1.1, r2.1), r2.2.1, r2.2.2)
+
+theorem txRun_pres (tx : T) (s0 : St K V) (m : Vol C V) : Pres s0 (txRun cfg hs e tx s0 m).2.1 :=
+  (run_pres cfg (hs.deliver tx) s0 m e).trans (run_pres cfg _ _ _ e)
+
+theorem txRun_vol (hnv : DeliverNoVset hs) (tx : T) (s0 : St K V) (m : Vol C V) :
+    (txRun cfg hs e tx s0 m).2.2 = m := by
+  unfold txRun
+  simp only
+  rw [run_noVset cfg _ _ _ e ((hnv tx).2 _), run_noVset cfg _ _ _ e (hnv tx).1]
+
+theorem txRun_shift (hb : GasBlind cfg hs) (tx : T) (d : Int) (s s' : St K V) (m : Vol C V)
+    (h : ShiftSt d s s') :
+    (txRun cfg hs e tx s' m).1 = (txRun cfg hs e tx s m).1 ∧
+    ShiftSt d (txRun cfg hs e tx s m).2.1 (txRun cfg hs e tx s' m).2.1 ∧
+    (txRun cfg hs e tx s' m).2.2 = (txRun cfg hs e tx s m).2.2 := by
+  obtain ⟨e1, sh1, v1⟩ := hb.deliver tx d s s' m e h
+  have hf := hb.fee tx s.gas.consumed d _ _ ((hs.deliver tx).run cfg s m e).2.2 e sh1
+  unfold txRun
+  simp only
+  rw [v1, h.consumed, e1, hf.1, hf.2.2]
+  exact ⟨rfl, hf.2.1, rfl⟩
+
+/-- the index-miss branch of `deliverTx` -/
+def deliverCore (n : Node K V C T H D) (tx : T) : Node K V C T H D × TxRes D :=
+  let x := txRun cfg hs e tx (n.dlv.toSt n.tree).begin n.vol
+  let ok := x.1.1.isSome && x.1.2.isSome
+  let s3 := finSt ok x.2.1
+  ({ n with dlv := ovOf s3, tree := s3.tree, vol := x.2.2, aim := .deliver },
+   { ok := ok, data := x.1.1, gasUsed := x.1.2.getD 0 })
+
+theorem deliverTx_hit (n : Node K V C T H D) (tx : T) (r : TxRes D)
+    (h : lookupIdx n.idx (hs.hash tx) = some r) : deliverTx cfg hs e n tx = (n, r) := by
+  unfold deliverTx; rw [h]
+
+theorem deliverTx_miss (n : Node K V C T H D) (tx : T)
+    (h : lookupIdx n.idx (hs.hash tx) = none) :
+    deliverTx cfg hs e n tx = deliverCore cfg hs e n tx := by
+  unfold deliverTx; rw [h]; rfl
+
+theorem checkTx_hit (n : Node K V C T H D) (tx : T) (r : TxRes D)
+    (h : lookupIdx n.idx (hs.hash tx) = some r) : checkTx cfg hs e n tx = (n, false) := by
+  unfold checkTx; rw [h]
+
+theorem deliverCore_frame (n : Node K V C T H D) (tx : T) :
+    (deliverCore cfg hs e n tx).1.tree = n.tree ∧ (deliverCore cfg hs e n tx).1.chk = n.chk ∧
+    (deliverCore cfg hs e n tx).1.idx = n.idx ∧ (deliverCore cfg hs e n tx).1.height = n.height ∧
+    (deliverCore cfg hs e n tx).1.closed = n.closed ∧
+    (deliverCore cfg hs e n tx).1.dlv.sess = none ∧
+    (deliverCore cfg hs e n tx).1.dlv.metered = n.dlv.metered ∧
+    (deliverCore cfg hs e n tx).1.dlv.gas.limit = n.dlv.gas.limit ∧
+    ((deliverCore cfg hs e n tx).2.ok = false →
+      (deliverCore cfg hs e n tx).1.dlv.cache = n.dlv.cache) := by
+  have hp := txRun_pres cfg hs e tx (n.dlv.toSt n.tree).begin n.vol
+  refine ⟨?_, rfl, rfl, rfl, rfl, ?_, ?_, ?_, ?_⟩
+  · show (finSt _ _).tree = n.tree
+    rw [finSt_tree, hp.tree]; rfl
+  · show (finSt _ _).sess = none
+    exact finSt_sess _ _
+  · show (finSt _ _).metered = n.dlv.metered
+    rw [finSt_metered, hp.metered]; rfl
+  · show (finSt _ _).gas.limit = n.dlv.gas.limit
+    rw [finSt_gas, hp.limit]; rfl
+  · intro hf
+    have hf' : ((txRun cfg hs e tx (n.dlv.toSt n.tree).begin n.vol).1.1.isSome &&
+        (txRun cfg hs e tx (n.dlv.toSt n.tree).begin n.vol).1.2.isSome) = false := hf
+    show (finSt _ _).cache = n.dlv.cache
+    rw [hf', finSt_false_cache, hp.cache rfl]; rfl
+
+theorem deliverCore_vol (hnv : DeliverNoVset hs) (n : Node K V C T H D) (tx : T) :
+    (deliverCore cfg hs e n tx).1.vol = n.vol :=
+  txRun_vol cfg hs e hnv tx _ _
+
+/-! ### `ShiftNode` -/
+
+theorem ShiftNode.rfl0 (n : Node K V C T H D) : ShiftNode 0 n n :=
+  ⟨rfl, ShiftOv.rfl0 _, rfl, rfl, rfl, rfl, rfl⟩
+
+theorem ShiftNode.trans {d d' : Int} {a b c : Node K V C T H D} (h1 : ShiftNode d a b)
+    (h2 : ShiftNode d' b c) : ShiftNode (d + d') a c := by
+  obtain ⟨a1, a2, a3, a4, a5, a6, a7⟩ := h1
+  obtain ⟨b1, b2, b3, b4, b5, b6, b7⟩ := h2
+  exact ⟨b1.trans a1, a2.trans b2, b3.trans a3, b4.trans a4, b5.trans a5, b6.trans a6, b7.trans a7⟩
+
+/-- (C) no session is open after `deliverTx` if none was before -/
+theorem deliverTx_sess_none (n : Node K V C T H D) (tx : T) (h0 : n.dlv.sess = none) :
+    (deliverTx cfg hs e n tx).1.dlv.sess = none := by
+  cases h : lookupIdx n.idx (hs.hash tx) with
+  | some r => rw [deliverTx_hit cfg hs e n tx r h]; exact h0
+  | none => rw [deliverTx_miss cfg hs e n tx h]; exact (deliverCore_frame cfg hs e n tx).2.2.2.2.2.1
+
+/-- (B) a failed transaction only advances the gas level -/
+theorem deliverTx_failed_shift (hnv : DeliverNoVset hs) (n : Node K V C T H D) (tx : T)
+    (h0 : n.dlv.sess = none) (hf : (deliverTx cfg hs e n tx).2.ok = false) :
+    ∃ d, ShiftNode d n (deliverTx cfg hs e n tx).1 := by
+  cases h : lookupIdx n.idx (hs.hash tx) with
+  | some r => rw [deliverTx_hit cfg hs e n tx r h]; exact ⟨0, ShiftNode.rfl0 n⟩
+  | none =>
+    rw [deliverTx_miss cfg hs e n tx h] at hf ⊢
+    obtain ⟨f1, f2, f3, f4, f5, f6, f7, f8, f9⟩ := deliverCore_frame cfg hs e n tx
+    exact ⟨_, f1, shiftOv_of _ _ (f6.trans h0.symm) (f9 hf) f7 f8, f2,
+      deliverCore_vol cfg hs e hnv n tx, f3, f4, f5⟩
+
+/-- (A) `deliverTx` commutes with gas shifts of the deliver state -/
+theorem deliverTx_shift (hb : GasBlind cfg hs) (d : Int) (n n' : Node K V C T H D) (tx : T)
+    (h : ShiftNode d n n') :
+    (deliverTx cfg hs e n' tx).2 = (deliverTx cfg hs e n tx).2 ∧
+    ShiftNode d (deliverTx cfg hs e n tx).1 (deliverTx cfg hs e n' tx).1 := by
+  obtain ⟨h1, h2, h3, h4, h5, h6, h7⟩ := h
+  cases hl : lookupIdx n.idx (hs.hash tx) with
+  | some r =>
+    have hl' : lookupIdx n'.idx (hs.hash tx) = some r := by rw [h5]; exact hl
+    rw [deliverTx_hit cfg hs e n tx r hl, deliverTx_hit cfg hs e n' tx r hl']
+    exact ⟨rfl, h1, h2, h3, h4, h5, h6, h7⟩
+  | none =>
+    have hl' : lookupIdx n'.idx (hs.hash tx) = none := by rw [h5]; exact hl
+    rw [deliverTx_miss cfg hs e n tx hl, deliverTx_miss cfg hs e n' tx hl']
+    have hs0 : ShiftSt d (n.dlv.toSt n.tree).begin (n'.dlv.toSt n'.tree).begin := by
+      rw [h1]; exact (h2.toSt n.tree).begin
+    obtain ⟨x1, x2, x3⟩ := txRun_shift cfg hs e hb tx d _ _ n.vol hs0
+    unfold deliverCore
+    simp only
+    rw [h4, x1, x3]
+    have hfin := x2.finSt ((txRun cfg hs e tx (n.dlv.toSt n.tree).begin n.vol).1.1.isSome &&
+      (txRun cfg hs e tx (n.dlv.toSt n.tree).begin n.vol).1.2.isSome)
+    exact ⟨rfl, hfin.tree, hfin.ovOf, h3, rfl, h5, h6, h7⟩
+
+/-! ### lists of transactions -/
+
+theorem survivors_cons (tx : T) (txs : List T) (r : TxRes D) (rs : List (TxRes D)) :
+    survivors (tx :: txs) (r :: rs) =
+      if r.ok then tx :: survivors txs rs else survivors txs rs := by
+  unfold survivors
+  cases h : r.ok <;> simp [h]
+
+theorem deliverAll_cons (n : Node K V C T H D) (tx : T) (txs : List T) :
+    deliverAll cfg hs e n (tx :: txs) =
+      ((deliverAll cfg hs e (deliverTx cfg hs e n tx).1 txs).1,
+       (deliverTx cfg hs e n tx).2 :: (deliverAll cfg hs e (deliverTx cfg hs e n tx).1 txs).2) := rfl
+
+theorem deliverAll_length (n : Node K V C T H D) (txs : List T) :
+    (deliverAll cfg hs e n txs).2.length = txs.length := by
+  induction txs generalizing n with
+  | nil => rfl
+  | cons tx txs ih => rw [deliverAll_cons]; simp [ih]
+
+/-- fact (4): the general form of `remove_failed_deliverAll` -/
+theorem deliverAll_shift (hb : GasBlind cfg hs) (hnv : DeliverNoVset hs) (txs : List T) :
+    ∀ (d : Int) (n n' : Node K V C T H D), ShiftNode d n n' → n.dlv.sess = none →
+      (deliverAll cfg hs e n (survivors txs (deliverAll cfg hs e n' txs).2)).2 =
+        (deliverAll cfg hs e n' txs).2.filter (·.ok) ∧
+      ∃ d', ShiftNode d' (deliverAll cfg hs e n (survivors txs (deliverAll cfg hs e n' txs).2)).1
+        (deliverAll cfg hs e n' txs).1 := by
+  induction txs with
+  | nil => intro d n n' h _; exact ⟨rfl, d, h⟩
+  | cons tx txs ih =>
+    intro d n n' h h0
+    have h0' : n'.dlv.sess = none := h.2.1.sess.trans h0
+    rw [deliverAll_cons, survivors_cons]
+    simp only
+    cases hok : (deliverTx cfg hs e n' tx).2.ok with
+    | true =>
+      obtain ⟨a1, a2⟩ := deliverTx_shift cfg hs e hb d n n' tx h
+      obtain ⟨i1, i2⟩ := ih d _ _ a2 (deliverTx_sess_none cfg hs e n tx h0)
+      simp only [if_true, deliverAll_cons, List.filter_cons, hok]
+      rw [← a1] at *
+      exact ⟨by rw [i1], i2⟩
+    | false =>
+      obtain ⟨d2, b⟩ := deliverTx_failed_shift cfg hs e hnv n' tx h0' hok
+      obtain ⟨i1, i2⟩ := ih (d + d2) n _ (h.trans b) h0
+      simp only [List.filter_cons, hok]
+      exact ⟨i1, i2⟩
+
+/-! ### block hooks -/
+
+theorem runHook_frame (n : Node K V C T H D) (hk : Bool × Prog K V C E Unit) :
+    (runHook cfg e n hk).tree = n.tree ∧ (runHook cfg e n hk).idx = n.idx ∧
+    (runHook cfg e n hk).height = n.height ∧
+    (n.dlv.sess = none → (runHook cfg e n hk).dlv.sess = none) := by
+  unfold runHook
+  split
+  · refine ⟨rfl, rfl, rfl, fun h0 => ?_⟩
+    exact (run_pres cfg hk.2 (n.dlv.toSt n.tree) n.vol e).sess_none h0
+  · exact ⟨rfl, rfl, rfl, fun h0 => h0⟩
+
+theorem foldl_runHook_frame (hooks : List (Bool × Prog K V C E Unit)) (n : Node K V C T H D) :
+    (hooks.foldl (runHook cfg e) n).tree = n.tree ∧ (hooks.foldl (runHook cfg e) n).idx = n.idx ∧
+    (hooks.foldl (runHook cfg e) n).height = n.height ∧
+    (n.dlv.sess = none → (hooks.foldl (runHook cfg e) n).dlv.sess = none) := by
+  induction hooks generalizing n with
+  | nil => exact ⟨rfl, rfl, rfl, fun h => h⟩
+  | cons hk t ih =>
+    rw [List.foldl_cons]
+    obtain ⟨a1, a2, a3, a4⟩ := ih (runHook cfg e n hk)
+    obtain ⟨b1, b2, b3, b4⟩ := runHook_frame cfg e n hk
+    exact ⟨a1.trans b1, a2.trans b2, a3.trans b3, fun h => a4 (b4 h)⟩
+
+theorem beginBlock_frame (n : Node K V C T H D) :
+    (beginBlock cfg hs e n).tree = n.tree ∧ (beginBlock cfg hs e n).idx = n.idx ∧
+    (beginBlock cfg hs e n).height = n.height ∧ (beginBlock cfg hs e n).dlv.sess = none := by
+  obtain ⟨a1, a2, a3, a4⟩ :=
+    foldl_runHook_frame cfg e (hs.begin (n.height + 1)) { n with dlv := Ov.fresh hs.gasLimit }
+  exact ⟨a1, a2, a3, a4 rfl⟩
+
+theorem endBlock_frame (n : Node K V C T H D) :
+    (endBlock cfg hs e n).tree = n.tree ∧ (endBlock cfg hs e n).idx = n.idx ∧
+    (endBlock cfg hs e n).height = n.height :=
+  let ⟨a1, a2, a3, _⟩ := foldl_runHook_frame cfg e (hs.endb (n.height + 1)) n
+  ⟨a1, a2, a3⟩
+
+theorem runHook_shift (d : Int) (a b : Node K V C T H D) (hk : Bool × Prog K V C E Unit)
+    (haim : hk.1 = true) (hg : GasShiftInv cfg hk.2) (h : ShiftNode d a b) :
+    ShiftNode d (runHook cfg e a hk) (runHook cfg e b hk) := by
+  obtain ⟨h1, h2, h3, h4, h5, h6, h7⟩ := h
+  unfold runHook
+  simp only [haim, Bool.true_or, if_true]
+  have hs0 : ShiftSt d (a.dlv.toSt a.tree) (b.dlv.toSt b.tree) := by
+    rw [h1]; exact h2.toSt a.tree
+  obtain ⟨_, x2, x3⟩ := hg d _ _ a.vol e hs0
+  rw [h4]
+  exact ⟨h1, x2.ovOf, h3, x3, h5, h6, h7⟩
+
+theorem foldl_runHook_shift (d : Int) (hooks : List (Bool × Prog K V C E Unit))
+    (hh : ∀ hk ∈ hooks, hk.1 = true ∧ GasShiftInv cfg hk.2) (a b : Node K V C T H D)
+    (h : ShiftNode d a b) :
+    ShiftNode d (hooks.foldl (runHook cfg e) a) (hooks.foldl (runHook cfg e) b) := by
+  induction hooks generalizing a b with
+  | nil => exact h
+  | cons hk t ih =>
+    rw [List.foldl_cons, List.foldl_cons]
+    have hk' := hh hk (List.mem_cons_self ..)
+    exact ih (fun x hx => hh x (List.mem_cons_of_mem _ hx)) _ _
+      (runHook_shift cfg e d a b hk hk'.1 hk'.2 h)
+
+theorem endBlock_shift (hhb : HooksGasBlind cfg hs) (ha : AllAimed hs) (d : Int)
+    (a b : Node K V C T H D) (h : ShiftNode d a b) :
+    ShiftNode d (endBlock cfg hs e a) (endBlock cfg hs e b) := by
+  unfold endBlock
+  rw [h.2.2.2.2.2.1]
+  exact foldl_runHook_shift cfg e d _
+    (fun hk hm => ⟨(ha _).2 hk hm, hhb _ hk hm⟩) a b h
+
+theorem commit_frame (n : Node K V C T H D) :
+    (commit cfg hs n).idx = n.idx ∧ (commit cfg hs n).vol = n.vol ∧
+    (commit cfg hs n).height = n.height + 1 ∧
+    (commit cfg hs n).tree = (writeInto cfg n.tree n.dlv.cache).commit := ⟨rfl, rfl, rfl, rfl⟩
+
+theorem commit_shift (d : Int) (a b : Node K V C T H D) (h : ShiftNode d a b) :
+    (commit cfg hs b).tree = (commit cfg hs a).tree ∧ (commit cfg hs b).vol = (commit cfg hs a).vol ∧
+    (commit cfg hs b).height = (commit cfg hs a).height := by
+  obtain ⟨h1, h2, h3, h4, h5, h6, h7⟩ := h
+  refine ⟨?_, h4, ?_⟩
+  · rw [(commit_frame cfg hs b).2.2.2, (commit_frame cfg hs a).2.2.2, h1, h2.cache]
+  · rw [(commit_frame cfg hs b).2.2.1, (commit_frame cfg hs a).2.2.1, h6]
+
+/-! ### the index -/
+
+theorem deliverTx_idx (n : Node K V C T H D) (tx : T) : (deliverTx cfg hs e n tx).1.idx = n.idx := by
+  cases h : lookupIdx n.idx (hs.hash tx) with
+  | some r => rw [deliverTx_hit cfg hs e n tx r h]
+  | none => rw [deliverTx_miss cfg hs e n tx h]; rfl
+
+theorem deliverAll_idx (n : Node K V C T H D) (txs : List T) :
+    (deliverAll cfg hs e n txs).1.idx = n.idx := by
+  induction txs generalizing n with
+  | nil => rfl
+  | cons tx txs ih => rw [deliverAll_cons]; exact (ih _).trans (deliverTx_idx cfg hs e n tx)
+
+theorem execBlock_idx (n : Node K V C T H D) (txs : List T) :
+    (execBlock cfg hs e n txs).1.idx =
+      n.idx ++ (txs.zip (deliverAll cfg hs e (beginBlock cfg hs e n) txs).2).map
+        (fun p => (hs.hash p.1, p.2)) := by
+  show (commit cfg hs (endBlock cfg hs e (deliverAll cfg hs e (beginBlock cfg hs e n) txs).1)).idx ++ _ = _
+  rw [(commit_frame cfg hs _).1, (endBlock_frame cfg hs e _).2.1, deliverAll_idx,
+    (beginBlock_frame cfg hs e n).2.1]
+
+theorem execBlock_lookup_stable (n : Node K V C T H D) (txs : List T) (h : H) (r : TxRes D)
+    (hl : lookupIdx n.idx h = some r) : lookupIdx (execBlock cfg hs e n txs).1.idx h = some r := by
+  rw [execBlock_idx]
+  exact alookup_append_of_some h _ _ r hl
+
+theorem execBlocks_lookup_stable (blocks : List (List T)) (n : Node K V C T H D) (h : H)
+    (r : TxRes D) (hl : lookupIdx n.idx h = some r) :
+    lookupIdx (execBlocks cfg hs e n blocks).1.idx h = some r := by
+  induction blocks generalizing n with
+  | nil => exact hl
+  | cons b bs ih =>
+    show lookupIdx (execBlocks cfg hs e (execBlock cfg hs e n b).1 bs).1.idx h = some r
+    exact ih _ (execBlock_lookup_stable cfg hs e n b h r hl)
+
+theorem execBlock_indexed (n : Node K V C T H D) (txs : List T) (tx : T) (hm : tx ∈ txs) :
+    (lookupIdx (execBlock cfg hs e n txs).1.idx (hs.hash tx)).isSome = true := by
+  rw [execBlock_idx]
+  apply alookup_append_isSome_right
+  rw [← mem_akeys_iff_alookup]
+  have hlen := deliverAll_length cfg hs e (beginBlock cfg hs e n) txs
+  have : akeys ((txs.zip (deliverAll cfg hs e (beginBlock cfg hs e n) txs).2).map
+      (fun p => (hs.hash p.1, p.2))) = txs.map hs.hash := by
+    unfold akeys
+    rw [List.map_map]
+    have : ((fun x : H × TxRes D => x.1) ∘ fun p : T × TxRes D => (hs.hash p.1, p.2)) =
+        hs.hash ∘ Prod.fst := rfl
+    rw [this, ← List.map_map, List.map_fst_zip (by omega)]
+  rw [this]
+  exact List.mem_map_of_mem hm
 
 end OLP.Shell
